@@ -1,7 +1,7 @@
 (* Proofs.LitCtx — contexts only put a literal-independent prefix in front of the command;
    carriers read back what was emitted; the pinned tree's global replaces do not. *)
 From Coq Require Import ZArith Bool String Ascii List Lia.
-From JMCV Require Import Model.Lit Proofs.LitBase Proofs.LitJson Proofs.LitNbt.
+From JMCV Require Import Model.Lit Proofs.LitBase Proofs.LitJson Proofs.LitNbt Proofs.LitFmt.
 Import ListNotations.
 Open Scope Z_scope.
 
@@ -140,7 +140,8 @@ Proof. congruence. Qed.
 Definition text_ok (k : carrier) (s : str) : bool :=
   match k with
   | KSay => true
-  | KJson _ _ | KText _ _ => forallb scalarb s
+  | KJson _ _ => forallb scalarb s
+  | KText _ _ _ => forallb scalarb s && negb (memz 38 s)      (* '&' is the formatting sign: see Proofs.LitFmt *)
   | KNbt _ _ => forallb cp_ok s
   end.
 
@@ -152,7 +153,8 @@ Proof.
     - destruct (memz 10 s || memz 13 s); [discriminate|]. apply Ok_inj in He; subst l. eexists; reflexivity.
     - apply Ok_inj in He; subst l. eexists; reflexivity.
     - apply Ok_inj in He; subst l. eexists; reflexivity.
-    - destruct (memz 38 s); [discriminate|]. apply Ok_inj in He; subst l. eexists; reflexivity. }
+    - destruct (fmt_emit true var false s); cbn [rmap] in He; try discriminate.
+      apply Ok_inj in He; subst l. eexists; reflexivity. }
   destruct Hpre as [t ->]. destruct (carrier_pre k) as [|c p]; [discriminate|].
   cbn. apply negb_true_iff, Z.eqb_neq in Hk. exact Hk.
 Qed.
@@ -166,7 +168,8 @@ Proof.
     now rewrite str_eqb_refl.
   - apply Ok_inj in He; subst l. rewrite strip_prefix_app. rewrite nbt_unquote_rest_emit by assumption.
     now rewrite str_eqb_refl.
-  - destruct (memz 38 s); [discriminate|]. apply Ok_inj in He; subst l.
+  - apply andb_true_iff in Ht as [Ht Ha]. apply negb_true_iff in Ha.
+    rewrite fmt_emit_plain in He by assumption. cbn [rmap] in He. apply Ok_inj in He; subst l.
     rewrite strip_prefix_app. rewrite json_unquote_rest_emit by assumption.
     now rewrite str_eqb_refl.
 Qed.
@@ -191,9 +194,9 @@ Proof.
   split; [exact E|]. rewrite E, skipn_length_app. now apply (read_emit pr).
 Qed.
 
-Theorem literal_reaches_output pr q raw k cs s line :
+Theorem literal_reaches_output nm pr q raw k cs s line :
   forallb ctx_wf cs = true -> carrier_wf k = true -> text_ok k s = true ->
-  decode_any q raw = Ok s -> compile_lit pr q raw k cs = Ok line ->
+  decode_any nm q raw = Ok s -> compile_lit nm pr q raw k cs = Ok line ->
   exists l, emit pr k s = Ok l /\ line = ctx_prefix cs ++ l /\
             read k (skipn (length (ctx_prefix cs)) line) = Some s.
 Proof.
